@@ -352,6 +352,22 @@ pub fn gen_sg(rng: &mut Rng) -> SG {
         rules.push(SRule { name: NNAMES[i].to_string(), vec_annotation: false, meta: if rng.chance(0.4) { rand_meta(rng, 0) } else { Meta::default() }, alts });
     }
     let mut g = SG { terms, rules };
+    if rng.chance(0.08) {
+        // ordinary names that differ from the built-in ones in case only
+        if g.rules.len() >= 2 && rng.chance(0.6) {
+            let k = rng.range(1, g.rules.len() - 1);
+            let nm = *rng.pick(&["Empty", "empty", "Stop", "stop", "Aug", "Terminals", "eMPTY"]);
+            if !g.rules.iter().any(|r| r.name == nm) {
+                g.rules[k].name = nm.to_string();
+            }
+        } else {
+            let k = rng.below(g.terms.len());
+            let nm = *rng.pick(&["empty", "Empty", "stop", "Stop", "augl"]);
+            if !g.terms.iter().any(|t| t.name == nm) {
+                g.terms[k].name = nm.to_string();
+            }
+        }
+    }
     if g.rules.len() >= 3 && rng.chance(0.05) {
         // a user rule that carries the name of a sugar helper of another symbol (`A1` next to `A+`)
         let mut helper_names: Vec<(String, Sym)> = vec![];
